@@ -782,13 +782,15 @@ package transaction
 //@ # an accepted purchase of a custom coin mints exactly ValueToBuy of it, and only if that keeps the volume within the
 //@ # coin's maximum supply (the precondition of Coins.AddVolume, proved at the call site)
 //@ func (BuyCoinData).Run
-//@   serves C02 C03 C04 C05 C27
+//@   serves C02 C03 C04 C05 C27 C15
 //@   implements iface Data.Run
 //@   assumes wf: data.ValueToBuy != nil ==> data.ValueToBuy.val >= 0 && data.ValueToBuy != rewardPool && data.MaximumValueToSell != nil
 //@   assumes typed: tx.Type == TypeBuyCoin
 //@   assumespre CalculatePurchaseAmount: state invariant, not provable locally: a bancor coin has positive volume and reserve and a ratio between 10 and 100
 //@   let snd = senderOf(tx)
 //@   ensures [C02] bought: result.Code == 0 && deliver && data.CoinToBuy != 0 && tx.GasCoin == 0 && data.CoinToSell == 0 ==> coinVolume(st.Coins, data.CoinToBuy) == old(coinVolume(st.Coins, data.CoinToBuy)) + data.ValueToBuy.val && coinVolume(st.Coins, data.CoinToBuy) <= coinMaxOf(st.Coins, data.CoinToBuy)
+//@   # C15: a successful buy never debits more of the coin being sold than the requested maximum (fee apart, when it is paid in another coin)
+//@   ensures [C15] maxsell: result.Code == 0 && deliver && tx.GasCoin != data.CoinToSell ==> bal(accs, data.CoinToSell, snd) >= old(bal(accs, data.CoinToSell, snd)) - data.MaximumValueToSell.val
 //@   covers delivered: result.Code == 0 && deliver && tx.GasCoin == 0 && data.CoinToBuy != 0 && data.CoinToSell == 0
 //@   loop 0 invariant grows: forall c types.CoinID, a types.Address :: bal(accs, c, a) >= old(bal(accs, c, a))
 //@   loop 0 invariant idx: -1 <= rangeindex && rangeindex < len(ownersCom)
@@ -885,6 +887,22 @@ package transaction
 //@   loop 0 invariant small: forall i int :: 0 <= i && i <= rangeindex ==> data.Weights[i] <= 1023
 //@   loop 1 invariant idx: -1 <= rangeindex && rangeindex < len(data.Addresses)
 //@   loop 1 invariant small: forall i int :: 0 <= i && i < len(data.Weights) ==> data.Weights[i] <= 1023
+
+//@ # the same gate when the owners of an existing multisig wallet are replaced (the wallet stored by EditMultisigData.Run is
+//@ # what Multisig.GetWeight indexes in RunTx)
+//@ func (EditMultisigData).basicCheck
+//@   serves C07 C05
+//@   nopanic
+//@   requires tx != nil && context != nil && context.state != nil && context.state.Accounts != nil && senderKnown(tx)
+//@   ensures failcode: result != nil ==> result.Code != 0
+//@   ensures [C07,C05] samecount: result == nil ==> len(data.Addresses) == len(data.Weights) && len(data.Weights) <= 32
+//@   ensures [C05] weights: result == nil ==> forall i int :: 0 <= i && i < len(data.Weights) ==> data.Weights[i] <= 1023
+//@   loop 0 invariant idx: -1 <= rangeindex && rangeindex < len(data.Weights) && len(data.Addresses) == len(data.Weights)
+//@   loop 0 invariant small: forall i int :: 0 <= i && i <= rangeindex ==> data.Weights[i] <= 1023
+//@   loop 1 invariant idx: -1 <= rangeindex && rangeindex < len(data.Addresses) && len(data.Addresses) == len(data.Weights)
+//@   loop 1 invariant small: forall i int :: 0 <= i && i < len(data.Weights) ==> data.Weights[i] <= 1023
+//@   loop 2 invariant idx: -1 <= rangeindex && rangeindex < len(data.Weights) && len(data.Addresses) == len(data.Weights)
+//@   loop 2 invariant small: forall i int :: 0 <= i && i < len(data.Weights) ==> data.Weights[i] <= 1023
 
 //@ # ---------------------------------------------------------------- C15: swap-pool routes gate every hop on the post-fee pool
 //@ func (SellSwapPoolDataV260).basicCheck
